@@ -55,8 +55,9 @@ def check(ctx):
         ctx.check(bool(init) and src(init[0].value).replace(" ", "") in ("8*size", "size*8"), "T6-dual", f, "%s: bfp starts at 8 * size" % f.name, "")
     ctx.check("bytify(n=n, size=size, reverse=reverse, strict=True)" in src(pk), "T6-dual", pk, "packify -> bytify(n, size, reverse, strict=True)", "")
     ctx.check("unbytify(b)" in src(up) or "unbytify(b, reverse" in src(up), "T6-dual", up, "unpackify -> unbytify(b)", "")
-    one = [n for n in ast.walk(lp) if isinstance(n, ast.If) and src(n.test) == "bfl == 1"]
-    ctx.check(bool(one) and "if fields[i]" in src(one[0]), "T6-dual", lp, "one-bit fields pack the truthiness of the value", "")
+    one = [n for n in ast.walk(lp) if isinstance(n, (ast.If, ast.IfExp)) and src(n.test) == "bfl == 1"]
+    ctx.check(bool(one) and ("if fields[i]" in src(one[0]) or "bool(fields[i])" in src(one[0])), "T6-dual", lp,
+              "one-bit fields pack the truthiness of the value", "")
     V = FuncView(ctx, pi)
     stores = [n for n in V.cfg.nodes if any(isinstance(x, ast.Subscript) and isinstance(x.ctx, ast.Store) and dotted(x.value) == "b" for x in V.cfg.walk_node(n))]
     V.need(stores, "slice store into b in packifyInto")
